@@ -135,5 +135,29 @@ pub fn from_to_float_helper_f64(neg: bool, abs: u128, frac_bits: u32, int_bits: 
     f64::from_to_float_helper(ToFloatHelper { neg, abs }, frac_bits, int_bits).to_bits()
 }
 
+/// `FloatHelper::to_float_kind` for `half::f16`
+#[cfg(all(substrate_fixed_verif, feature = "f16"))]
+pub fn to_float_kind_f16(bits: u16, dst_frac_bits: u32, dst_int_bits: u32) -> FlatFloatKind {
+    flatten_kind(half::f16::from_bits(bits).to_float_kind(dst_frac_bits, dst_int_bits))
+}
+
+/// `FloatHelper::to_float_kind` for `half::bf16`
+#[cfg(all(substrate_fixed_verif, feature = "f16"))]
+pub fn to_float_kind_bf16(bits: u16, dst_frac_bits: u32, dst_int_bits: u32) -> FlatFloatKind {
+    flatten_kind(half::bf16::from_bits(bits).to_float_kind(dst_frac_bits, dst_int_bits))
+}
+
+/// `FloatHelper::from_to_float_helper` for `half::f16`
+#[cfg(all(substrate_fixed_verif, feature = "f16"))]
+pub fn from_to_float_helper_f16(neg: bool, abs: u128, frac_bits: u32, int_bits: u32) -> u16 {
+    half::f16::from_to_float_helper(ToFloatHelper { neg, abs }, frac_bits, int_bits).to_bits()
+}
+
+/// `FloatHelper::from_to_float_helper` for `half::bf16`
+#[cfg(all(substrate_fixed_verif, feature = "f16"))]
+pub fn from_to_float_helper_bf16(neg: bool, abs: u128, frac_bits: u32, int_bits: u32) -> u16 {
+    half::bf16::from_to_float_helper(ToFloatHelper { neg, abs }, frac_bits, int_bits).to_bits()
+}
+
 pub use crate::display::verif::Raw as FmtRaw;
 pub use crate::from_str::verif::{error_kind as parse_error_kind, from_str};
